@@ -91,6 +91,8 @@ def run(pid, spec, tier, seed, wd, only, rebase, t_start):
     enums, etext = U.read_enums()
     headers = ['contracts/' + h for h in spec.get('contracts', [])] + ['stubs/' + h for h in spec.get('stubs', [])]
     sigs = U.load_sigs(headers)
+    if spec.get('pre_hook'):
+        spec['pre_hook'](wd)
     # extract all units
     extracted = {}
     for name, u in spec['units'].items():
